@@ -980,7 +980,7 @@ enum Item {
 }
 
 pub fn run_c25(ctx: &Ctx, rep: &mut Report) {
-    let n = ctx.cases(1_600, 50_000);
+    let n = ctx.cases(16_000, 160_000);
     let origins = [RName::simple("example.test."), RName::simple("sub.example.test."), RName::simple("inc.test."), RName::root()];
     let base = PathBuf::from(&ctx.workdir).join("c25");
     for case in ctx.case_range(n) {
@@ -1044,10 +1044,14 @@ pub fn run_c25(ctx: &Ctx, rep: &mut Report) {
             flat: &mut Vec<u8>,
             too_deep: &mut bool,
             origins: &[RName],
+            no_origin_root: bool,
+            trap: &mut bool,
         ) -> PState {
             let mut p = Printer::new(rng);
             p.st = state;
-            if p.st.origin.is_none() {
+            // the root file may go without any $ORIGIN (absolute names only); every other file
+            // that starts without an origin sets one itself
+            if p.st.origin.is_none() && !(idx == 0 && no_origin_root) {
                 let o = origins[0].clone();
                 p.directive_origin(&o);
             }
@@ -1103,7 +1107,7 @@ pub fn run_c25(ctx: &Ctx, rep: &mut Report) {
                         let crlf = p.crlf;
                         let feats = std::mem::take(&mut p.features);
                         let rng_ref: &mut Rng = p.rng;
-                        let after = visit(*child, depth + 1, max_depth, child_state, nodes, rng_ref, texts, expected, flat, too_deep, origins);
+                        let after = visit(*child, depth + 1, max_depth, child_state, nodes, rng_ref, texts, expected, flat, too_deep, origins, no_origin_root, trap);
                         p = Printer::new(rng_ref);
                         p.out = out_so_far;
                         p.line = line_so_far;
@@ -1113,6 +1117,14 @@ pub fn run_c25(ctx: &Ctx, rep: &mut Report) {
                         p.st.origin = saved_origin.clone();
                         if let Some(o) = &saved_origin {
                             flat.extend(format!("$ORIGIN {}\n", o.to_text()).bytes());
+                        }
+                        if saved_origin.is_none() && !*too_deep && p.rng.chance(1, 2) {
+                            // back in a file that has no origin (the included file had one): a
+                            // relative owner here must be an error, not a record under a leaked origin
+                            p.out.extend(if p.rng.bool() { &b"relative-trap 60 IN A 192.0.2.1"[..] } else { &b"@ 60 IN A 192.0.2.1"[..] });
+                            p.eol();
+                            *trap = true;
+                            *too_deep = true;
                         }
                     }
                 }
@@ -1124,7 +1136,9 @@ pub fn run_c25(ctx: &Ctx, rep: &mut Report) {
             texts[idx] = p.out.clone();
             p.st.clone()
         }
-        visit(0, 0, max_depth, PState::default(), &nodes, &mut rng, &mut texts, &mut expected, &mut flat, &mut too_deep, &origins);
+        let no_origin_root = rng.chance(1, 4);
+        let mut trap = false;
+        visit(0, 0, max_depth, PState::default(), &nodes, &mut rng, &mut texts, &mut expected, &mut flat, &mut too_deep, &origins, no_origin_root, &mut trap);
         let mut write_failed = false;
         for (i, node) in nodes.iter().enumerate() {
             if std::fs::write(dir.join(&node.rel_path), &texts[i]).is_err() {
@@ -1176,7 +1190,7 @@ pub fn run_c25(ctx: &Ctx, rep: &mut Report) {
         if too_deep != ended_in_error {
             let e = items.last().and_then(|r| r.as_ref().err().cloned()).unwrap_or_default();
             // WKS bit order (known finding of C23) also shows up here as a value mismatch, not as an error
-            rep.violation(if too_deep { "c25:depth-limit-not-enforced" } else { "c25:unexpected-error" }, format!("nesting needs depth {}, limit {}: parser ended with error = {} ({})", max_depth_needed, max_depth, ended_in_error, e), w());
+            rep.violation(if trap { "c25:relative-name-accepted-without-origin" } else if too_deep { "c25:depth-limit-not-enforced" } else { "c25:unexpected-error" }, format!("nesting needs depth {}, limit {}: parser ended with error = {} ({})", max_depth_needed, max_depth, ended_in_error, e), w());
             continue;
         }
         let got: Vec<&(PathBuf, usize, ZRec)> = items.iter().filter_map(|r| r.as_ref().ok()).collect();
@@ -1219,7 +1233,7 @@ pub fn run_c25(ctx: &Ctx, rep: &mut Report) {
             }
         }
         if ok {
-            rep.class(&format!("files{}:depth{}:limit{}:deep{}", n_files, max_depth_needed, max_depth, too_deep));
+            rep.class(&format!("files{}:depth{}:limit{}:deep{}:noorigin{}:trap{}", n_files, max_depth_needed, max_depth, too_deep, no_origin_root, trap));
             rep.hist(if too_deep { "too-deep" } else { "parsed" });
         }
         if case % 200 == 0 {
